@@ -308,6 +308,10 @@ Proof.
   destruct (cval (disconnect disc_fuel false w l) l); auto; apply set_val_view; auto.
 Qed.
 
+Lemma existsb_ext_Forall {A} (P : A -> Prop) (f g : A -> bool) l :
+  Forall P l -> (forall x, P x -> f x = g x) -> existsb f l = existsb g l.
+Proof. intros H E. induction H; simpl; auto. rewrite E, IHForall; auto. Qed.
+
 (* ------------------------------------------------------------------ locality of every operation but NewDoc *)
 Definition not_newdoc (op : iop) : Prop := match op with OpNewDoc => False | _ => True end.
 
@@ -449,14 +453,25 @@ Proof.
     rewrite (view_alive a w w' V). destruct (alive w a); simpl; auto.
   - (* OpJson *)
     rewrite (view_dv_get a w w' V). destruct (dv_get w a) as [dv|] eqn:Ed; simpl; [|auto].
-    destruct (dv_alive dv); simpl; [|auto]. split; auto.
+    destruct (dv_alive dv); simpl; [|auto].
     assert (Hc : Forall (fun e : N * iloc => in_a a (snd e)) (dv_cache dv)).
     { destruct (W _ _ Ed) as (_ & H2 & _). exact H2. }
-    apply (fold_view a _ (dv_cache dv) (fun e => in_a a (snd e))); auto.
-    + intros w0 x Hx W0. destruct (hget w0 (snd x)) as [c|] eqn:Ec; [|apply ok_refl].
-      apply hset_ok; auto. apply (hget_closed a w0 _ c W0 Hx Ec).
-    + intros w0 w0' x Hx V0 W0 W0'. rewrite (view_hget a w0 w0' _ V0 Hx).
-      destruct (hget w0 (snd x)); [|exact V0]. apply hset_view; auto.
+    match goal with |- view_eq a (fold_left ?f0 _ w) _ /\ _ => set (f := f0) end.
+    assert (Fok : forall w0 x, in_a a (snd x) -> wf w0 -> ok a w0 (f w0 x)).
+    { intros w0 x Hx W0. unfold f. destruct (hget w0 (snd x)) as [c|] eqn:Ec; [|apply ok_refl].
+      apply hset_ok; auto. apply (hget_closed a w0 _ c W0 Hx Ec). }
+    assert (V1 : view_eq a (fold_left f (dv_cache dv) w) (fold_left f (dv_cache dv) w')).
+    { apply (fold_view a f (dv_cache dv) (fun e => in_a a (snd e))); auto.
+      intros w0 w0' x Hx V0 W0 W0'. unfold f. rewrite (view_hget a w0 w0' _ V0 Hx).
+      destruct (hget w0 (snd x)); [|exact V0]. apply hset_view; auto. }
+    assert (W1 : wf (fold_left f (dv_cache dv) w)).
+    { eapply ok_wf; [|exact W]. apply (fold_ok a f (dv_cache dv) (fun e => in_a a (snd e))); auto. }
+    split; [exact V1|].
+    assert (E : json_unwritable (fold_left f (dv_cache dv) w') (dv_cache dv) =
+                json_unwritable (fold_left f (dv_cache dv) w) (dv_cache dv)).
+    { unfold json_unwritable. apply (existsb_ext_Forall (fun e : N * iloc => in_a a (snd e))); auto.
+      intros x Hx. rewrite (unparse_res_view a _ _ V1 W1 _ _ Hx). reflexivity. }
+    rewrite E. reflexivity.
 Qed.
 
 (* ================================================================== executions *)
